@@ -63,7 +63,8 @@ def main(argv=None):
         if sig in listed:
             known_lines.append("KNOWN-FINDING: property=%s sig=%s %s" % (pid, sig, listed[sig] or msg))
         else:
-            violations.append({"oracle": "unlisted-finding:" + sig, "message": msg, "replay": example if isinstance(example, dict) and "engine" in example else None})
+            ex = example if isinstance(example, dict) and "engine" in example else None
+            violations.append({"oracle": (ex or {}).get("oracle", sig), "message": msg + "  (finding sig=%s is not listed in known-findings.txt)" % sig, "replay": ex})
     rc = 0
     shown = []
     if violations:
